@@ -108,6 +108,14 @@ class Dim:
         db = self.db
         g, qual, name = self._callee_qual(c)
         args = db.call_args(c)
+        # elements and iterators of a container have the container's dimension
+        if c.get("kind") == "CXXMemberCallExpr" and name in ("begin", "end", "cbegin", "cend", "front", "back", "at", "data"):
+            mb = db.member_base(c)
+            if mb is not None:
+                return self.dim(mb)
+        if c.get("kind") == "CXXOperatorCallExpr" and (db.callee(c)[0] or "") in ("operator*", "operator[]", "operator->", "operator++", "operator--") and len(kids(c)) >= 2 \
+                and not (len(kids(c)) == 3 and (db.callee(c)[0] or "") == "operator*"):
+            return self.dim(kids(c)[1])
         if c.get("kind") == "CXXOperatorCallExpr":
             args = kids(c)[1:]
             if len(args) == 2 and (db.callee(c)[0] or "").endswith("="):
